@@ -1,6 +1,12 @@
 package main
 
-import "golang.org/x/tools/go/ssa"
+import (
+	"go/token"
+	"go/types"
+	"strings"
+
+	"golang.org/x/tools/go/ssa"
+)
 
 func init() {
 	register("C15", PropMeta{
@@ -170,6 +176,55 @@ func init() {
 		}
 		if n == 0 {
 			r.Undec("C15.6", "structures#registered-block-is-the-block", "", "no update of WritableFractalHeap.DirectBlocks found")
+		}
+	})
+}
+
+func init() {
+	reg := registry["C15"]
+	reg.Meta.Rules["C15.7"] = "a heap ID can address the object it names: every path to the encoding of a heap ID for a new object passes a test that the offset fits the HeapOffsetSize bytes of the ID, and the failing side of that test does not reach the encoding with the same offset"
+	reg.Rules = append(reg.Rules, func(c *Ctx, r *Result) {
+		n := 0
+		for _, name := range []string{"structures.WritableFractalHeap.insertViaDirect", "structures.WritableFractalHeap.insertViaIndirect"} {
+			fn := c.Fn(r, name)
+			if fn == nil {
+				continue
+			}
+			for _, site := range callsIn(fn) {
+				if c.calleeName(site) != "structures.WritableFractalHeap.encodeHeapID" {
+					continue
+				}
+				n++
+				in := site.(ssa.Instruction)
+				// a width test: a call to a bool helper that compares its argument with 1 << (8*HeapOffsetSize), or such a comparison inline
+				isWidthTest := func(x ssa.Instruction) bool {
+					call, ok := x.(*ssa.Call)
+					if !ok {
+						return false
+					}
+					g := call.Call.StaticCallee()
+					if g == nil || g.Blocks == nil || !inModule(fnPkgPath(g)) || g.Signature.Results().Len() != 1 {
+						return false
+					}
+					if b, isB := g.Signature.Results().At(0).Type().Underlying().(*types.Basic); !isB || b.Kind() != types.Bool {
+						return false
+					}
+					reads := false
+					instrs(g, func(y ssa.Instruction) {
+						if u, ok := y.(*ssa.UnOp); ok && u.Op == token.MUL {
+							if k, _ := fieldLoadKey(u); strings.HasSuffix(k, ".HeapOffsetSize") {
+								reads = true
+							}
+						}
+					})
+					return reads
+				}
+				ok := mustPrecede(in, isWidthTest)
+				r.Check(ok, "C15.7", name+"#offset-fits-heap-id", c.InstrPos(in), "every path to encodeHeapID passes a test of the offset against the width of the heap ID's offset field (HeapOffsetSize bytes)")
+			}
+		}
+		if n < 2 {
+			r.Errorf("C15.7: only %d heap ID encodings found in the insert paths", n)
 		}
 	})
 }
